@@ -101,3 +101,9 @@ Definition chunk_ref {A} (l : list A) (size : nat) : list (list A) :=
 Definition windowed_ref {A} (l : list A) (size : nat) : list (list A) :=
   if length l <? size then [] else map (fun i => firstn size (skipn i l)) (seq 0 (length l - size + 1)).
 Definition pairs_ref {A} (l : list A) : list (A * A) := combine l (tl l).
+
+(* Used by the correspondence check only (PartitionCheck.v), and in the statement C13_clamp_size that
+   justifies it: a size above n is replaced by n + 1, so that a size such as 2^63-1 is never built as a
+   unary [nat]. *)
+Definition clamp_size {A} (l : list A) (z : Z) : nat :=
+  Z.to_nat (Z.min z (Z.of_nat (length l) + 1)).
